@@ -5,3 +5,4 @@ import IdenaModel.Props.C02
 import IdenaModel.Props.C03
 import IdenaModel.Props.C13State
 import IdenaModel.Props.C17
+import IdenaModel.Props.C19
